@@ -151,16 +151,15 @@ func (it *MatchedBlockIterator) loadNextWindow() error {
 	fromAligned := windowStart - (windowStart % core.NumBlocksPerFilter)
 	toAligned := fromAligned + core.NumBlocksPerFilter - 1
 
-	// Falls into range of running filter
-	runningFrom, err := it.runningFilter.FromBlock()
+	// Falls into range of running filter. Take the window once and ask the
+	// window itself for its range: reading the range and the window in two
+	// steps lets a rollover (or a reorg across the boundary) slip in between,
+	// and the bits of the new window would be applied to the old range.
+	inner, err := it.runningFilter.InnerFilter()
 	if err != nil {
-		return fmt.Errorf("reading running filter from-block: %w", err)
+		return fmt.Errorf("reading running filter inner filter: %w", err)
 	}
-	if fromAligned == runningFrom {
-		inner, err := it.runningFilter.InnerFilter()
-		if err != nil {
-			return fmt.Errorf("reading running filter inner filter: %w", err)
-		}
+	if inner.FromBlock() == fromAligned {
 		err = it.matcher.getCandidateBlocksForFilterInto(inner, it.currentBits)
 		if err != nil {
 			return fmt.Errorf("getting candidate blocks for running filter: %w", err)
